@@ -201,12 +201,12 @@ fn structural_scalars(r: &UInt, n_limbs: usize, rng: &mut Rng) -> Vec<(UInt, usi
     v
 }
 
-pub fn toy<M: Model>(meta: &'static cfgs::toy_curves::ToyMeta, shard: usize, shards: usize, rep: &mut Report, rng: &mut Rng, args: &Args, extra: &mut dyn FnMut(&mut Report, &[u64], &M::A, &M::G, &OP<[u64; 2]>, u64)) {
+pub fn toy<M: Model>(meta: &'static ToyDesc, shard: usize, shards: usize, rep: &mut Report, rng: &mut Rng, args: &Args, extra: &mut dyn FnMut(&mut Report, &[u64], &M::A, &M::G, &OP<[u64; 3]>, u64)) {
     let ctx = toy_ctx::<M>(meta);
     rep.config(&format!("toy::{}", meta.name));
     let r = meta.r;
-    let in_sub = |p: &OP<[u64; 2]>| ctx.subgroup.contains(p);
-    let pts: &Vec<OP<[u64; 2]>> = if ctx.complete { &ctx.points } else { &ctx.subgroup };
+    let in_sub = |p: &OP<[u64; 3]>| ctx.subgroup.contains(p);
+    let pts: &Vec<OP<[u64; 3]>> = if ctx.complete { &ctx.points } else { &ctx.subgroup };
     let step = args.pick(7u64, 1);
     for (i, p) in pts.iter().enumerate() {
         if i % shards != shard {
@@ -371,13 +371,13 @@ pub fn items(args: &Args) -> Vec<Item> {
     let shards = 8usize;
     macro_rules! toy_sw {
         ($name:literal, $cfg:ty) => {
-            let meta = cfgs::toy_curves::TOY_CURVES.iter().find(|m| m.name == $name).unwrap();
+            let meta = crate::model::toy_desc($name);
             for s in 0..shards {
                 v.push(Item::new(format!("c04/toy::{}/{}", $name, s), move |rep, rng, args| {
                     for c in REQUIRED { rep.require(c); }
                     let name = format!("toy::{}", $name);
-                    let mut extra = |rep: &mut Report, l: &[u64], a: &sw::Affine<$cfg>, g: &sw::Projective<$cfg>, e: &OP<[u64; 2]>, _dg: u64| {
-                        let ctx = Ctx::<SWm<$cfg>, Toy>::new(&name, Toy { p: meta.p, deg: meta.ext_degree, beta: meta.beta });
+                    let mut extra = |rep: &mut Report, l: &[u64], a: &sw::Affine<$cfg>, g: &sw::Projective<$cfg>, e: &OP<[u64; 3]>, _dg: u64| {
+                        let ctx = Ctx::<SWm<$cfg>, Toy>::new(&name, Toy { p: meta.p, deg: meta.deg, beta: meta.beta });
                         sw_paths::<$cfg, Toy>(&ctx, rep, l, a, g, e);
                     };
                     toy::<SWm<$cfg>>(meta, s, shards, rep, rng, args, &mut extra)
@@ -387,12 +387,12 @@ pub fn items(args: &Args) -> Vec<Item> {
     }
     macro_rules! toy_te {
         ($name:literal, $cfg:ty) => {
-            let meta = cfgs::toy_curves::TOY_CURVES.iter().find(|m| m.name == $name).unwrap();
+            let meta = crate::model::toy_desc($name);
             for s in 0..shards {
                 v.push(Item::new(format!("c04/toy::{}/{}", $name, s), move |rep, rng, args| {
                     let name = format!("toy::{}", $name);
-                    let mut extra = |rep: &mut Report, l: &[u64], a: &ark_ec::twisted_edwards::Affine<$cfg>, g: &ark_ec::twisted_edwards::Projective<$cfg>, e: &OP<[u64; 2]>, _dg: u64| {
-                        let ctx = Ctx::<TEm<$cfg>, Toy>::new(&name, Toy { p: meta.p, deg: meta.ext_degree, beta: meta.beta });
+                    let mut extra = |rep: &mut Report, l: &[u64], a: &ark_ec::twisted_edwards::Affine<$cfg>, g: &ark_ec::twisted_edwards::Projective<$cfg>, e: &OP<[u64; 3]>, _dg: u64| {
+                        let ctx = Ctx::<TEm<$cfg>, Toy>::new(&name, Toy { p: meta.p, deg: meta.deg, beta: meta.beta });
                         te_paths::<$cfg, Toy>(&ctx, rep, l, a, g, e);
                     };
                     toy::<TEm<$cfg>>(meta, s, shards, rep, rng, args, &mut extra)
@@ -440,6 +440,7 @@ pub fn items(args: &Args) -> Vec<Item> {
     }
     crate::curves::for_each_glv!(glv_item);
     cfgs::for_each_toy_sw!(toy_sw);
+    cfgs::for_each_toy_sw3!(toy_sw);
     cfgs::for_each_toy_te!(toy_te);
     v
 }
